@@ -46,12 +46,12 @@ Proof.
   assert (HLiff : forall j, In j L <-> In j (intfs g) /\ tch (i2s g) o j = true).
   { intros j. rewrite HLin. unfold C. rewrite filter_In. split; [tauto|]. intros [H1 H2].
     split; auto.
-    destruct (stored_pair g sp j HI H1) as (a & b & a' & b' & _ & _ & _ & _ & Ha & _ & Hda & _).
+    destruct (stored_pair g sp j HI H1) as (a & b & a' & b' & _ & _ & _ & Ha & _ & Hda & _).
     assert (In a' s1) by (unfold s1; apply in_app_iff; auto).
     pose proof (dim_max_ge _ _ H). lia. }
   destruct (rename_loop_spec s1 o n L (i2s g) HLn) as (m' & Hr & Hk & Hout & Hin).
   { intros i Hi. apply HLiff in Hi. destruct Hi as [Hi Ht].
-    destruct (stored_pair g sp i HI Hi) as (a & b & a' & b' & _ & Hl' & _ & Hab & Ha & Hb & _).
+    destruct (stored_pair g sp i HI Hi) as (a & b & a' & b' & _ & Hl' & _ & Ha & Hb & _).
     exists a', b'. unfold tch in Ht. rewrite Hl' in Ht.
     repeat split; auto; unfold s1; apply in_app_iff; auto. }
   assert (Hkdel : kdel o s1 = filter (fun x => neqb x o) (pS sp) ++ [n]).
@@ -90,14 +90,13 @@ Proof.
   { intros j a' b'. cbn [s_replace1 pS pI]. rewrite lookup_ren.
     destruct (lookup j (pI sp)) as [[a b]|] eqn:E; cbn [option_map]; [|discriminate].
     unfold renp; cbn [fst snd]. intros Hp; inversion Hp; subst.
-    destruct (inv_wf _ _ HI j a b E) as (H1 & H2 & H3 & H4 & H5 & H6).
-    split; [intros Heq; apply H1; eapply ren_inj; eauto|].
+    destruct (inv_wf _ _ HI j a b E) as (H2 & H3 & H4 & H5 & H6).
     split; [apply ren_in; auto|]. split; [apply ren_in; auto|].
     rewrite !ren_dim by auto. split; auto. split; auto.
     intros k c' d'. rewrite lookup_ren.
     destruct (lookup k (pI sp)) as [[c d]|] eqn:E'; cbn [option_map]; [|discriminate].
     intros Hq Hu; inversion Hq; subst.
-    destruct (inv_wf _ _ HI k c d E') as (_ & H2' & H3' & _).
+    destruct (inv_wf _ _ HI k c d E') as (H2' & H3' & _).
     eapply H6; eauto. eapply (unord_ren_inv o n (pS sp)); eauto. }
   assert (Hkeys : map fst (map (ren_entry o n) (pI sp)) = map fst (pI sp)).
   { rewrite map_map. apply map_ext. intros e; reflexivity. }
@@ -175,16 +174,32 @@ Proof.
   - cbn [step sstep]. apply step_replace_all; auto.
 Qed.
 
+Lemma listing_ok g sp :
+  Inv g sp -> exists L, interfaces g None = Ok L /\ forall x, In x L -> In x (intfs g).
+Proof.
+  intros HI. unfold interfaces. cbn [dim_filter].
+  assert (HnI : NoDup (intfs g)) by (rewrite (inv_intfs _ _ HI); apply (inv_ndI _ _ HI)).
+  destruct (argsort_gen (sds g) (intfs g) HnI) as (L & HL & _ & HLin).
+  - intros Hne E. destruct (intfs g) as [|i r] eqn:Ei; [congruence|].
+    assert (Hi : In i (intfs g)) by (rewrite Ei; left; auto).
+    destruct (stored_pair g sp i HI Hi) as (a & b & a' & b' & _ & _ & _ & Ha & _).
+    rewrite E in Ha. destruct Ha.
+  - exists L. split; auto. intros x Hx. apply HLin in Hx. tauto.
+Qed.
+
 Lemma step_rej g sp o e :
   Inv g sp -> okb sp o = false -> rejb sp o = Some e -> step g o = (g, Raised e).
 Proof.
   intros HI _ Hr. destruct o as [l|i a b|s|im sm]; cbn [rejb] in Hr; cbn [step].
   - unfold add_subdomains. rewrite (inv_sds _ _ HI).
-    destruct (existsb _ l); inversion Hr; reflexivity.
+    destruct (existsb _ l); cbn [orb] in Hr; [inversion Hr; reflexivity|].
+    destruct (negb (dupfree l)); inversion Hr; reflexivity.
   - unfold add_interface, gdim. rewrite (inv_intfs _ _ HI).
     destruct (mem i (map fst (pI sp))); [inversion Hr; reflexivity|].
     destruct (absdiff (fst a) (fst b) <? 3); [discriminate | inversion Hr; reflexivity].
-  - unfold remove_subdomain. rewrite (inv_sds _ _ HI).
+  - unfold remove_subdomain. destruct (listing_ok g sp HI) as (L & HL & HLin). rewrite HL.
+    rewrite collect_spec by (intros i Hi; rewrite (inv_keys _ _ HI); auto).
+    rewrite (inv_sds _ _ HI).
     destruct (mem s (pS sp)); [discriminate | inversion Hr; reflexivity].
   - destruct sm as [|[o n] r]; [discriminate|]. cbn [replace_all]. unfold replace_one.
     rewrite (inv_sds _ _ HI). destruct (mem o (pS sp)); [discriminate | inversion Hr; reflexivity].
